@@ -78,6 +78,7 @@ type Features struct {
 	ListOfLists    bool
 	WeirdIDs       bool // ids with separators : # . and spaces
 	EmptyAbstract  bool // an interface without implementers and a root field returning it
+	Uploads        bool // scalar Upload, input FileInput and mutation fields taking files
 }
 
 type World struct {
@@ -336,6 +337,29 @@ func Generate(t *tape.Tape, feat Features, maxServices int) *World {
 			f.Args = g.args()
 			w.Subscr = append(w.Subscr, f)
 		}
+	}
+	if feat.Uploads {
+		add(&TypeDef{Name: "Upload", Kind: "scalar"})
+		add(&TypeDef{Name: "FileInner", Kind: "input", Inputs: []*ArgDef{{Name: "doc", Type: TypeRef{Name: "Upload"}}, {Name: "note", Type: TypeRef{Name: "String"}}}})
+		add(&TypeDef{Name: "FileInput", Kind: "input", Inputs: []*ArgDef{
+			{Name: "label", Type: TypeRef{Name: "String"}},
+			{Name: "file", Type: TypeRef{Name: "Upload"}},
+			{Name: "files", Type: TypeRef{Name: "Upload", List: true}},
+			{Name: "inner", Type: TypeRef{Name: "FileInner"}},
+			{Name: "inners", Type: TypeRef{Name: "FileInner", List: true}},
+		}})
+		ret := func() TypeRef {
+			if t.Bool(1, 2) {
+				return TypeRef{Name: ents[t.Choose(len(ents))], NonNull: true}
+			}
+			return TypeRef{Name: "String", NonNull: true}
+		}
+		w.Mutation = append(w.Mutation,
+			&FieldDef{Name: "mUpload", Owner: t.Choose(w.K), Type: ret(), Args: []*ArgDef{{Name: "file", Type: TypeRef{Name: "Upload", NonNull: true}}, {Name: "tag", Type: TypeRef{Name: "String"}}}},
+			&FieldDef{Name: "mUploads", Owner: t.Choose(w.K), Type: ret(), Args: []*ArgDef{{Name: "files", Type: TypeRef{Name: "Upload", List: true}}}},
+			&FieldDef{Name: "mUploadIn", Owner: t.Choose(w.K), Type: ret(), Args: []*ArgDef{{Name: "input", Type: TypeRef{Name: "FileInput"}}}},
+			&FieldDef{Name: "mUploadIn2", Owner: t.Choose(w.K), Type: ret(), Args: []*ArgDef{{Name: "input", Type: TypeRef{Name: "FileInput"}}, {Name: "extra", Type: TypeRef{Name: "Upload"}}}},
+		)
 	}
 	if feat.EmptyAbstract {
 		add(&TypeDef{Name: "Lonely", Kind: "interface"})
